@@ -80,7 +80,8 @@ Definition check_lua_block (o : oracles) (path file : str) (b : block) : res (li
   | Some script =>
     let? content0 := content_of file b in
     let? content := extract_content o (T "check-lua-pattern") E_LUA_PATTERN b content0 in
-    match o_lua o script path content with
+    (* the script sees ctx.file and ctx.line (and the attributes, which the tag at that line determines) *)
+    match o_lua o script (path ++ 58 :: dec (fst (b_ts b))) content with
     | None => Err E_ORACLE_MISS
     | Some (cls, msg) =>
       if cls =? 0 then Ok []
